@@ -63,16 +63,24 @@ func (c *monC03) track(m *Machine, s *Step) {
 		}
 		if post.Locked.After(c.lockedUntil[pid]) {
 			c.lockedUntil[pid] = post.Locked
-		} else if pre, had := s.Pre.Users[pid]; had && !post.Locked.Equal(pre.Locked) && !post.Locked.IsZero() && lockRewrites[s.Op.K] {
+		} else if pre, had := s.Pre.Users[pid]; had && !post.Locked.Equal(pre.Locked) && !post.Locked.IsZero() && lockRewrites[s.Op.K] && post.Locked.After(stepEnd(s)) {
 			// a manual lock or a failure that (re)triggers the lock sets the deadline to
 			// now+LockDuration, which may be EARLIER than an operator's far ban: C04 judges
-			// that deadline, here it is simply the new truth
+			// that deadline, here it is simply the new truth - as long as it is a deadline at all, i.e. still ahead when written
 			c.lockedUntil[pid] = post.Locked
 		}
 		if !post.Confirmed {
 			c.confirmed[pid] = false
 		}
 	}
+}
+
+// stepEnd: when the step's request ended (now, for steps that are not requests).
+func stepEnd(s *Step) time.Time {
+	if s.Resp != nil {
+		return s.Resp.T1.UTC()
+	}
+	return time.Now().UTC()
 }
 
 // lockRewrites: ops in which the lock module itself may write a new (possibly earlier) deadline.
@@ -186,7 +194,8 @@ var kindsC03 = []wk{
 }
 
 var profC03 = profile{
-	must: []string{"auth"}, may: []string{"logout", "otp", "recover", "remember", "register", "oauth2"},
+	arbVariants: true,
+	must:        []string{"auth"}, may: []string{"logout", "otp", "recover", "remember", "register", "oauth2"},
 	setups: []string{"totp", "sms", "recovery"}, kinds: kindsC03, minOps: 14, maxOps: 34,
 	accts: [2]int{2, 4}, browsers: [2]int{1, 2}, middlewares: []string{"", "", "remember"},
 	faultPct:   8, // the vetoes are safety rules: no failed backend call may let a locked / unconfirmed account in
